@@ -157,6 +157,13 @@ def apply(s, op, ctx):
         else:
             arg = other
             ident = None if name is None else _qn(name)
+            if how == "doc_uri" and name is not None:
+                # the same identifier given as a plain xsd:anyURI Identifier - when one of the two documents declares a
+                # namespace it can be compacted with (otherwise it denotes nothing the library could name)
+                from prov.identifier import Identifier
+                if any(uri.startswith(n.uri) and uri != n.uri for c in (d, other) for n in c.namespaces):
+                    ident = Identifier(uri)
+                    ctx.count("add_bundle:identifier_as_uri")
         expect = "ok"
         if how != "free" and other.has_bundles():
             expect = "refused_nested"
@@ -279,14 +286,14 @@ def make_machine(Base):
 
         @rule(i=st.integers(0, 4), j=st.integers(0, 4), name=st.sampled_from(BIDS))
         def add_bundle_common_name(self, i, j, name):
-            self.do(["add_bundle", i, j, name, "doc"])
+            self.do(["add_bundle", i, j, name, "doc" if (i + j) % 2 else "doc_uri"])
 
         @rule(i=st.integers(0, 4), j=st.integers(0, 4), k=st.integers(0, 3))
         def update_with_bundle(self, i, j, k):
             self.do(["update_bundle", i, j, k])
 
         @rule(i=st.integers(0, 4), j=st.integers(0, 4), name=st.one_of(st.none(), st.sampled_from(BIDS), st.sampled_from(BIDS), gen.name_ref("json", "id", ("qn",))),
-              how=st.sampled_from(["doc", "doc", "free"]))
+              how=st.sampled_from(["doc", "doc_uri", "free"]))
         def add_bundle(self, i, j, name, how):
             self.do(["add_bundle", i, j, name, how])
 
